@@ -241,3 +241,5 @@ def r6_8(cx):
 
 
 RULES = [('R6.1', r6_1), ('R6.2', r6_2), ('R6.3', r6_3), ('R6.4', r6_4), ('R6.5', r6_5), ('R6.6', r6_6), ('R6.7', r6_7), ('R6.8', r6_8)]
+RULES.append(('R6.9', scan_rule(('hcobs::stream_reader::',))))
+FLOORS['R6.9'] = 1
